@@ -65,6 +65,10 @@ pub struct Case {
     pub ts_type: u8,
     pub batches: Vec<LBatch>,
     pub w: W,
+    /// how many of the batches are flushed while the executor's historical phase is still running
+    /// (after it subscribed, at its first catalog call); the rest follow once execute() returned
+    #[serde(default)]
+    pub early: u8,
 }
 
 fn op_str(o: u8) -> &'static str {
@@ -274,19 +278,6 @@ pub fn exec_executor(case: &Case) -> Outcome {
         let chan = BroadcastChannel::new(256);
         let tchan = TopicBroadcastChannel::new(256);
         let before = chrono::Utc::now().timestamp_nanos_opt().unwrap();
-        let rx = if use_topic {
-            let frx = tchan.subscribe(TopicFilter::All).await;
-            StreamingQueryExecutor::new_filtered(node.engine.clone(), env.metadata.clone(), frx).execute(&sql).await
-        } else {
-            StreamingQueryExecutor::new(node.engine.clone(), env.metadata.clone(), chan.subscribe()).execute(&sql).await
-        };
-        let mut rx = match rx {
-            Ok(r) => r,
-            Err(e) => {
-                out.set_fail(format!("subscribe-error:{}", sig_tags(&f)), format!("{}: {:?}", sql, e));
-                return out;
-            }
-        };
         let merge = before; // rows are +-1 h away from the merge instant: the exact value does not matter
         let (batches, exp) = match expected(case, merge, &where_sql).await {
             Ok(x) => x,
@@ -297,12 +288,73 @@ pub fn exec_executor(case: &Case) -> Outcome {
         };
         classify(case, &f, &exp, &mut out);
         out.class(if use_topic { "channel:topic" } else { "channel:broadcast" });
-        for rb in &batches {
+        let send = |rb: &RecordBatch| {
             if use_topic {
                 let _ = tchan.send(TopicBatch { batch: rb.clone(), metadata: BatchMetadata { shard_id: "s".into(), tenant_id: 0, metrics: vec![] } });
             } else {
                 let _ = chan.send(rb.clone());
             }
+        };
+        // the executor's catalog calls go through a gate, so that batches can be flushed while its
+        // historical phase is under way (after it subscribed, before it switches to the live phase)
+        let core = crate::sim::SimCore::new();
+        let gated_md: Arc<dyn cardinalsin::metadata::MetadataClient> = Arc::new(crate::simmeta::SimMetadata::new(1, core.clone(), Arc::new(LocalMetadataClient::new())));
+        let n_early = case.early as usize % (batches.len() + 1);
+        let exec = if use_topic {
+            let frx = tchan.subscribe(TopicFilter::All).await;
+            StreamingQueryExecutor::new_filtered(node.engine.clone(), gated_md, frx)
+        } else {
+            StreamingQueryExecutor::new(node.engine.clone(), gated_md, chan.subscribe())
+        };
+        core.set_scheduled(true);
+        let sql2 = sql.clone();
+        let task = tokio::spawn(async move { exec.execute(&sql2).await });
+        let mut early_sent = false;
+        let mut idle = 0;
+        loop {
+            crate::sim::quiesce().await;
+            if task.is_finished() {
+                break;
+            }
+            let pend = core.pending();
+            if pend.is_empty() {
+                idle += 1;
+                if idle > 2000 {
+                    out.set_fail("subscribe-hangs", sql.clone());
+                    return out;
+                }
+                tokio::time::sleep(std::time::Duration::from_millis(1)).await;
+                continue;
+            }
+            if !early_sent {
+                for rb in &batches[..n_early] {
+                    send(rb);
+                }
+                early_sent = true;
+                if n_early > 0 {
+                    out.class("batches-flushed-during-the-historical-phase");
+                }
+            }
+            core.release(pend[0].id, crate::sim::Decision::Proceed);
+        }
+        core.set_scheduled(false);
+        let rx = match task.await {
+            Ok(r) => r,
+            Err(_) => {
+                out.set_fail("executor-panic", take_last_panic().unwrap_or_default());
+                return out;
+            }
+        };
+        let mut rx = match rx {
+            Ok(r) => r,
+            Err(e) => {
+                out.set_fail(format!("subscribe-error:{}", sig_tags(&f)), format!("{}: {:?}", sql, e));
+                return out;
+            }
+        };
+        let from = if early_sent { n_early } else { 0 };
+        for rb in &batches[from..] {
+            send(rb);
         }
         let mut got: Vec<i64> = Vec::new();
         loop {
@@ -443,7 +495,7 @@ fn wtree(core_only: bool) -> impl Strategy<Value = W> {
 }
 
 fn case_strategy(core_only: bool, ts_types: u8) -> BoxedStrategy<Case> {
-    (0u8..ts_types, prop::collection::vec(prop::collection::vec(lrow(), 1..8).prop_map(|rows| LBatch { rows }), 1..5), wtree(core_only)).prop_map(|(ts_type, batches, w)| Case { ts_type, batches, w }).boxed()
+    (0u8..ts_types, prop::collection::vec(prop::collection::vec(lrow(), 1..8).prop_map(|rows| LBatch { rows }), 1..5), wtree(core_only)).prop_map(|(ts_type, batches, w)| Case { ts_type, batches, w, early: 0 }).boxed()
 }
 
 fn tf() -> impl Strategy<Value = TF> {
@@ -455,13 +507,13 @@ pub fn def() -> PropDef {
     PropDef {
         id: "C18",
         level: "exploration",
-        rule: "filter-direct / executor: 1-4 broadcast batches of 1-7 rows (Int64 or Timestamp(ns,UTC) timestamps one hour before / after the merge instant, 3 metrics per batch, nullable host / value_f64 / value_i64) and a WHERE tree (depth <=3) of comparisons (=,<>,<,<=,>,>= in either operand order; string literals on host / metric_name, non-negative integers on value_i64, decimal literals on value_f64) joined by AND / OR / parentheses; oracle = DataFusion's evaluation of the same WHERE on the same batch restricted to rows at/after the merge instant, compared in flush order; executor runs on the real broadcast channel and on a FilteredReceiver. literal-classes: the same with integer literals against the float column, decimal literals of either sign (integral and fractional, steps of 0.5) against the integer column, negative literals, and negative integers in the data. topic: filter trees of All / Shard / Tenant / Metrics / And / Or (incl. empty lists) vs an independent interpreter. Non-trivial = WHERE contains OR or a reversed comparison and some batch has both matching and non-matching rows (topic: some but not all batches match).",
+        rule: "filter-direct / executor: 1-4 broadcast batches of 1-7 rows (Int64 or Timestamp(ns,UTC) timestamps one hour before / after the merge instant, 3 metrics per batch, nullable host / value_f64 / value_i64) and a WHERE tree (depth <=3) of comparisons (=,<>,<,<=,>,>= in either operand order; string literals on host / metric_name, non-negative integers on value_i64, decimal literals on value_f64) joined by AND / OR / parentheses; oracle = DataFusion's evaluation of the same WHERE on the same batch restricted to rows at/after the merge instant, compared in flush order; executor runs on the real broadcast channel and on a FilteredReceiver; a generated prefix of the batches is flushed while the executor's historical phase is under way (its catalog calls are gated), the rest after execute() returned. literal-classes: the same with integer literals against the float column, decimal literals of either sign (integral and fractional, steps of 0.5) against the integer column, negative literals, and negative integers in the data. topic: filter trees of All / Shard / Tenant / Metrics / And / Or (incl. empty lists) vs an independent interpreter. Non-trivial = WHERE contains OR or a reversed comparison and some batch has both matching and non-matching rows (topic: some but not all batches match).",
         assumptions: &["supported forms = a column compared with a numeric or string literal, combined with AND / OR / parentheses; NULL / boolean / timestamp literals, IN, BETWEEN and NOT are outside the generated domain", "the subscriber keeps up (channel capacity 256 > batches)"],
         subs: || {
             vec![
                 Box::new(Sub::<Case> { name: "filter-direct", cases: |t| t.scale(4_000, 10), strategy: |_| case_strategy(true, 2), exec: exec_direct }),
                 Box::new(Sub::<Case> { name: "literal-classes", cases: |t| t.scale(1_500, 10), strategy: |_| case_strategy(false, 2), exec: exec_direct }),
-                Box::new(Sub::<Case> { name: "executor", cases: |t| t.scale(600, 10), strategy: |_| case_strategy(true, 4), exec: exec_executor }),
+                Box::new(Sub::<Case> { name: "executor", cases: |t| t.scale(600, 10), strategy: |_| (case_strategy(true, 4), prop_oneof![1 => Just(0u8), 2 => any::<u8>()]).prop_map(|(mut c, early)| { c.early = early; c }).boxed(), exec: exec_executor }),
                 Box::new(Sub::<TopicCase> {
                     name: "topic",
                     cases: |t| t.scale(3_000, 10),
